@@ -38,7 +38,9 @@ CONSTANTS StartIds, Bounds, DClasses, Ks, WSteps, Pushes, Regimes, Intervals, Ch
 MagNets == <<
   [oak |-> 20,  fix |-> 25,  asic |-> 40,  allow |-> 60,  final |-> 80],
   [oak |-> 600, fix |-> 610, asic |-> 620, allow |-> 640, final |-> 660],
-  [oak |-> 2,   fix |-> 2,   asic |-> 3,   allow |-> 8,   final |-> 8] >>
+  [oak |-> 2,   fix |-> 2,   asic |-> 3,   allow |-> 8,   final |-> 8],
+  [oak |-> 0,   fix |-> 0,   asic |-> 0,   allow |-> 0,   final |-> 0],
+  [oak |-> 0,   fix |-> 0,   asic |-> 0,   allow |-> 0,   final |-> 8] >>
 Starts == <<
   [net |-> 1, h |-> 5],    \* 1  pre-Oak, no adjustment
   [net |-> 1, h |-> 17],   \* 2  pre-Oak -> Oak
@@ -50,7 +52,9 @@ Starts == <<
   [net |-> 1, h |-> 76],   \* 8  v2 -> final cut
   [net |-> 1, h |-> 90],   \* 9  after the final cut
   [net |-> 2, h |-> 497],  \* 10 the pre-Oak retarget at height 500
-  [net |-> 3, h |-> 4] >>  \* 11 legacy rules -> final cut without a v2 interlude
+  [net |-> 3, h |-> 4],    \* 11 legacy rules -> final cut without a v2 interlude
+  [net |-> 4, h |-> 3],    \* 12 every fork active from genesis (fork heights 0)
+  [net |-> 5, h |-> 4] >>  \* 13 v2 allowed from genesis -> final cut
 BelowClasses == {"belowS", "belowL"}
 AboveClasses == {"aboveS", "aboveL"}
 EdgeClasses == BelowClasses \cup AboveClasses
